@@ -12,7 +12,8 @@ EXTRA = {"C18-a": ["C13"], "C01-b": ["C07"], "C07-a": ["C01"], "C12-b": ["C05"],
          # round 5: the change breaks its own property through machinery that belongs to a sibling property's check
          "C01-i": ["C07"],      # body bytes lost through a readline()/read() call pattern: the input-API model of C07
          "C10-j": ["C03"],      # ESRCH for an already reaped worker during reload: a SIGCHLD interleaving only engine K (C03) owns
-         "C05-g": ["C13"], "C06-j": ["C13"]}
+         "C05-g": ["C13"], "C06-j": ["C13"],
+         "C10-l": ["C03"]}      # surplus workers picked by pid instead of age: only visible when the pid counter wraps (engine K)
 
 
 _baseline = {}
